@@ -37,8 +37,11 @@ CLAIMED = {
         "tables with EXISTS exclusion, UNION ALL, match_key; two-table split): for every table, link type and rule list (rules = arbitrary three-valued outcome functions) "
         "a row (i,l,r) is emitted iff the pair is admissible, rule i is TRUE and no earlier rule is TRUE; no pair twice or in both orientations; no rules => all admissible pairs; "
         "plain/salted/exploding interchangeable; two-table split = link_only. Tie: predict()/deterministic_link() vs compiled model on generated tables x rule lists and on "
-        "every outcome vector in {T,F,N}^n, n<=4; brute-force oracle on the real output.",
-        "Trusted: Lean kernel + standard axioms; harness's own 3-valued evaluator for rule atoms; SQL engines; WFKeys (distinct composite ids) is a hypothesis.",
+        "every outcome vector in {T,F,N}^n, n<=4; brute-force oracle on the real output. The SQL block_using_rules_sqls emits (four backend link types, the per-rule statement with the rule and the "
+        "exclusion of the preceding rules as parameters) is captured from the running code and translated to relational-algebra terms on every run (T-sql: Generated/BlockSql.lean); Properties/C01Sql.lean "
+        "proves for rule lists of any length and every table contents that this SQL under Rel.eval emits exactly the admissible pairs with the first TRUE rule, each once, and equals the functional model's list.",
+        "Trusted: Lean kernel + standard axioms; harness's own 3-valued evaluator for rule atoms; SQL engines; WFKeys (distinct composite ids) is a hypothesis; T-sql translator + Rel.eval as the meaning of SQL "
+        "(validated against the engines on every run); the hand-written loop over the rule list; salted / exploding rules are covered by the hand model + correspondence only.",
         "DESIGN.md §6 C01",
     ),
     "C02": (
@@ -64,8 +67,12 @@ CLAIMED = {
         "Lean 4 theorems about a model of blocking_analysis.py and the GENERATED calculate_cartesian (re-translated from misc.py by T-arith on every run, instantiated at Q): "
         "pre-filter count = size of the equi-join (sum of block products, NULL keys never join), reported blocks exact, post-filter count = number of blocked pairs, marginal counts = rows per "
         "match_key with correct running totals, cartesian = number of admissible pairs for all three link types, n_largest_blocks sorted and maximal. "
-        "Tie: the three public functions vs the compiled model on generated tables/rules + translation validation of the generated function; brute-force oracle on the real output.",
-        "Trusted: Lean kernel + standard axioms; T-arith translator (validated against the Python function on 300 inputs per run); sqlglot's equi/filter split of a rule is an input.",
+        "Tie: the three public functions vs the compiled model on generated tables/rules + translation validation of the generated function; brute-force oracle on the real output. "
+        "The counting SQL (per-side GROUP BY, USING join, no-key forms, ORDER BY ... LIMIT of n_largest_blocks, row counts) is captured from the running code with the key expressions as parameters and translated to "
+        "relational-algebra terms on every run (T-sql: Generated/BCountSql.lean); Properties/C14Sql.lean proves for key lists of any length and NULL keys that sum(block_count) is the size of the equi-join, the block rows "
+        "are exact, and every tie resolution of the LIMIT returns maximal blocks.",
+        "Trusted: Lean kernel + standard axioms; T-arith translator (validated against the Python function on 300 inputs per run); sqlglot's equi/filter split of a rule is an input; T-sql translator + Rel.eval "
+        "(validated against the engines on every run); the hand-written loop over the key list (tied by rfl at 0-3 keys).",
         "DESIGN.md §6 C14",
     ),
     "C03": (
@@ -171,8 +178,12 @@ CLAIMED = {
         "a duplicate-free dataset contributes at most one record to any cluster after EVERY iteration for EVERY tie-break, the loop terminates, and with pairwise distinct probabilities the result is "
         "maximal (no remaining mutually-best candidate) and every cluster is CONNECTED through kept edges (`connected_tie_free`: the run computes the constrained Kruskal partition, "
         "`partition_is_kruskal_when_tie_free`, independent of the tie-break oracles); connectivity is DISPROVED for tied probabilities (`connected_counter_ties` = known finding K4). Tie: cluster_using_single_best_links on DuckDB (1/4/16 threads) and SQLite vs the compiled model on every labelled 4-record graph sample, random tie-free "
-        "and tie-heavy inputs; tied inputs are checked for membership in the set of model outputs over all tie-breaks; independent oracle recomputes the four clauses naively.",
-        "Trusted: Lean kernel + standard axioms; engine semantics of joins/min/row_number; which tie-break an engine realises is a parameter.",
+        "and tie-heavy inputs; tied inputs are checked for membership in the set of model outputs over all tie-breaks; independent oracle recomputes the four clauses naively. "
+        "The SQL one_to_one_clustering emits (preamble, the statements of a pass for any list of duplicate-free datasets, final statement) is captured from the running code and translated to relational-algebra "
+        "terms on every run (T-sql: Generated/OtoSql.lean); Properties/C12Sql.lean proves that on tie-free inputs one pass under Rel.eval is one step of the functional model and, by induction over passes, that the "
+        "SQL loop returns the model's clusters, so the C12 theorems hold of the SQL's own rows.",
+        "Trusted: Lean kernel + standard axioms; engine semantics of joins/min/row_number; which tie-break an engine realises is a parameter; T-sql translator + Rel.eval incl. Rel.rowNumber (equal to SQL's "
+        "row_number only for distinct order keys; validated against the engines on 2000 tie-free cases per run); the hand-written generic form of the three statements that depend on the number of datasets (rfl-checked at 1-3).",
         "DESIGN.md §6 C12",
     ),
     "C16": (
@@ -212,7 +223,9 @@ TECHNIQUE = {
     "C11": _TR.format("T-sql: the SQL statements of the threshold loop of cluster_pairwise_predictions_at_multiple_thresholds and of solve_connected_components; T-arith: threshold_args_to_match_prob_list of misc.py"),
     "C19": _TR.format("T-sql: the SQL statements compute_graph_metrics emits, as relational-algebra terms proved to refine the functional model"),
     "C15": _TR.format("T-sql: the truth-space SQL statements of accuracy.py, as relational-algebra terms proved to refine the functional model"),
-    "C14": _TR.format("T-arith: calculate_cartesian of misc.py"),
+    "C14": _TR.format("T-sql: the counting SQL of blocking_analysis.py with the key expressions as parameters, proved to count the equi-join; T-arith: calculate_cartesian of misc.py"),
+    "C01": _TR.format("T-sql: the SQL block_using_rules_sqls emits with the rule predicates as parameters, as relational-algebra terms proved to emit exactly the admissible pairs with their first satisfied rule"),
+    "C12": _TR.format("T-sql: the SQL one_to_one_clustering emits, as relational-algebra terms proved to refine the functional model on tie-free inputs"),
     "C06": _TR.format("T-dialect: function / infinity / array-index table of the five dialects and the comparators the level creators emit, probed on the real backends"),
     "C16": _TR.format("T-levels: predicate tree of every library comparison level and the level list of every library comparison"),
     "C17": _TR.format("T-writes: attribute writes of every creator class"),
